@@ -548,8 +548,8 @@ def run(chk):
                       "naming": tuple("s%02d" % k for k in range(n)) if naming == "list" else "conv"})
 
     # ---- bounded-exhaustive distributions and enumeration orders of valid traces
-    lim = chk.budget(24, None)
-    nperm = chk.budget(4, 24)
+    lim = chk.budget(10, None)
+    nperm = chk.budget(3, 24)
     bases = []
     for si, skel in enumerate(shapes()):
         for rankmode in ("none", "rev", "fwd"):
@@ -656,7 +656,7 @@ def run(chk):
             else:
                 key = "%s:%s" % (cls, c["line"])
                 crash_keys += 1
-                if crash_keys > 12:      # the first ones are enough as replays; all are counted
+                if crash_keys > 5:      # the first ones are enough as replays; all are counted
                     key = None
             chk.count("violation:" + cls + ":" + specclass)
             if key:
